@@ -31,6 +31,8 @@ FINISH = dict(
 )
 
 KINDS = ["trusted", "untrusted", "wrong-host", "expired"]
+# the endpoint named by an IP literal: the certificate must be valid for THAT address (an iPAddress SAN)
+IP_KINDS = ["trusted-ip", "wrong-host-ip"]
 FILESTATE = ["ok", "missing", "garbage"]
 
 
@@ -58,6 +60,8 @@ def make_material(helper, d):
                          "needed_root": w("rootA2.pem", wrong["root_pem"]), "can_validate": False}
     mat["expired"] = {"cert": w("e.crt", expired["leaf_pem"]), "key": w("e.key", expired["leaf_key_pem"]),
                       "needed_root": w("rootA3.pem", expired["root_pem"]), "can_validate": False}
+    mat["trusted-ip"] = dict(mat["trusted"], host="127.0.0.1")
+    mat["wrong-host-ip"] = dict(mat["wrong-host"], host="127.0.0.1")
     mat["unrelated_root"] = w("rootU.pem", unrelated["root_pem"])
     mat["garbage"] = w("garbage.pem", "-----BEGIN CERTIFICATE-----\nnot base64 at all!\n-----END CERTIFICATE-----\n")
     mat["missing"] = os.path.join(d, "does-not-exist.pem")
@@ -89,7 +93,7 @@ def scenario(idx, root, mat, kind, combo, fstate, helper):
     cli, ep, gl = lists
     has_needed = any(l and m["needed_root"] in l for l in lists)
     chain_valid = bool(m["can_validate"] and has_needed)
-    ca = mockca.MockCA(helper, tls={"cert": m["cert"], "key": m["key"], "host": "localhost"})
+    ca = mockca.MockCA(helper, tls={"cert": m["cert"], "key": m["key"], "host": m.get("host", "localhost")})
     ca.start()
     cert = {"identifiers": [{"dns": "example.org", "challenge": "http-01"}]}
     cfg, log = flow.make_config(d, ca.base + "/directory", [cert])
@@ -175,6 +179,9 @@ def run(ctx):
                 # absent sources are filled, in half of the grid, by an unrelated root
                 for fstate in FILESTATE:
                     grid.append((kind, combo, fstate))
+        for kind in IP_KINDS:
+            for combo in ((None, "needed", None), ("needed", None, None), (None, None, "needed"), (None, None, None)):
+                grid.append((kind, combo, "ok"))
         # variant with unrelated roots in the otherwise-absent sources (exactness of the root set)
         for kind in KINDS:
             for combo in itertools.product(["unrelated", "needed"], repeat=3):
